@@ -25,10 +25,14 @@ class Iv:
     """interval with provenance: src is a frozenset of origin descriptions (reads / fields); empty = not input-derived.
     exact = both bounds are attained (constants, reads of a constant width, arithmetic on those); an interval that had to
     absorb something unknown is not exact and is never the basis of a report."""
-    __slots__ = ("lo", "hi", "src", "exact")
+    __slots__ = ("lo", "hi", "src", "exact", "sure")
 
-    def __init__(self, lo, hi, src=frozenset(), exact=True):
+    def __init__(self, lo, hi, src=frozenset(), exact=True, sure=None):
         self.lo, self.hi, self.src, self.exact = lo, hi, src, exact
+        # `sure`: a sub-range every value of which the stream can produce (kept when the whole interval has to absorb something
+        # unknown from another origin - e.g. a field with one constructor fed by a raw read and another by a computation): enough to
+        # decide "can be zero"
+        self.sure = sure if sure is not None else ((lo, hi) if exact and src else None)
 
     def __repr__(self):
         return "[%d,%d]%s%s" % (self.lo, self.hi, "*" if self.src else "", "" if self.exact else "~")
@@ -45,7 +49,8 @@ def join(a, b):
         return b
     if b is None:
         return a
-    return Iv(min(a.lo, b.lo), max(a.hi, b.hi), a.src | b.src, a.exact and b.exact)
+    ex = a.exact and b.exact
+    return Iv(min(a.lo, b.lo), max(a.hi, b.hi), a.src | b.src, ex, None if ex else (a.sure or b.sure))
 
 
 def ty_range(ty):
@@ -108,7 +113,10 @@ def clamp_to(iv, ty):
         return None
     if iv.within(r):
         return iv
-    return Iv(max(r[0], iv.lo) if iv.lo <= r[1] else r[0], min(r[1], iv.hi) if iv.hi >= r[0] else r[1], iv.src, iv.exact)
+    sure = None
+    if not iv.exact and iv.sure and iv.sure[0] <= r[1] and iv.sure[1] >= r[0]:
+        sure = (max(iv.sure[0], r[0]), min(iv.sure[1], r[1]))
+    return Iv(max(r[0], iv.lo) if iv.lo <= r[1] else r[0], min(r[1], iv.hi) if iv.hi >= r[0] else r[1], iv.src, iv.exact, sure)
 
 
 def u32_dist(fn, defs, o):
@@ -200,7 +208,7 @@ class FnIntervals:
             if adt and name is not None and not str(adt).startswith(("core::", "std::", "alloc::")) and (adt, name) in self.fields:
                 v = self.fields[(adt, name)]
                 if v is not None and v.src:
-                    v = Iv(v.lo, v.hi, v.src | frozenset(["field:%s.%s" % (adt, name)]), v.exact)
+                    v = Iv(v.lo, v.hi, v.src | frozenset(["field:%s.%s" % (adt, name)]), v.exact, None if v.exact else v.sure)
                 return v
             lty = fn.local_ty(l)
             if lty.startswith(CARRIERS) or lty.startswith("("):
